@@ -411,6 +411,15 @@ pub fn socket_jobs(tier: Tier) -> Vec<zvcore::explore::Job> {
                 tier.pick(200_000, 3_000_000),
                 move || scenario(&pr2),
             ));
+            // the same with the peers announcing each of the other legal socket types
+            if pr.policy == 0 && !pr.coop {
+                for variant in 1..ty.peer_types().len() {
+                    let pr2 = pr.clone();
+                    let mut pj = params_json(&pr);
+                    pj["peer_variant"] = json!(variant);
+                    jobs.push(e3::job(format!("C05/socket/{}/{}x{}/peers-announce-{}", ty.name(), pr.peers, pr.msgs, ty.peer_types()[variant]), pj, tier.pick(1, 2), tier.pick(100_000, 1_000_000), move || scenario(&pr2)));
+                }
+            }
         }
     }
     for ty in [Ty::Pull, Ty::Sub, Ty::Dealer, Ty::Router, Ty::Rep, Ty::XPub] {
